@@ -3,11 +3,19 @@ from checks._chain_check import run_chain_check
 PID = "C03"
 ENGINES = ["chain"]
 
+NEED = {
+    "ProcessBlock:ok_head": 300, "ProcessBlock:ok_fork": 100, "ProcessBlock:orphan": 200, "ProcessBlock:known": 100,
+    "notes:next": 200, "notes:fork": 100, "notes:reorg": 30, "notes:retried_orphan": 50, "rewound:block": 30,
+    "SyncHeaders:ok": 5,
+}
+
 
 def run(tier, replay):
     return run_chain_check(PID, tier, replay,
                            mc_quick=["mc/MC_Chain_confluence"], mc_thorough=["mc/MC_Chain_confluence_t"],
                            sim_cfg="mc/MC_Chain_simemit_conf", n_quick=200, n_thorough=2500,
-                           focus="HeadValidated / HeadMaxWork / HeadMonotone / Confluence / OrphansRetried: exhaustive over every fork tree of 4 (thorough 5) blocks with difficulties {1,2}, headers first, bodies in every order with duplicates; replay of random 7-block trees with 18 deliveries compares head, header head, orphan pool, stored sets after every delivery and the state roots with a twin that saw only the winning chain",
+                           focus="HeadValidated / HeadMaxWork / HeadMonotone / Confluence / OrphansRetried: exhaustive over every fork tree of 4 (thorough 5) blocks with difficulties {1,2}, headers first, bodies in every order with duplicates; replay of random 7-block trees with 18 deliveries compares head, header head, orphan pool, stored sets after every delivery, the adapter notifications of every delivery (one block_accepted per accepted block incl. retried orphans, in order; Fork iff the block did not become the head, with its fork point) and the state roots with a twin that saw only the winning chain",
                            extra_sims=[("mc/MC_Chain_simemit_deep", 16, 120), ("mc/MC_Chain_simemit_orphans", 60, 600)],
-                           assumptions=["headers are delivered before bodies (as the property states); orphan capacity not reached"])
+                           assumptions=["headers are delivered before bodies (as the property states); orphan capacity not reached",
+                                        "of the notification status only Fork-vs-head and the fork point of a Fork are verdicts; Next-vs-Reorg is computed by the code against the header chain (DESIGN 9.3) and stays an observation"],
+                           need=NEED)
